@@ -10,7 +10,8 @@ TRUSTED_BASE = [
     'extraction: ExtrOcamlBasic only (Extract Inductive for bool, option, unit, prod, list, sumbool, sumor); N/positive/nat stay inductive; no Extract Constant; OCaml 4.13.1 + zarith for decimal<->N in the driver',
     'correspondence machinery (differential testing, not proof): harness types and instrumentation (harness/src), the read-only snapshot hook (cargo feature verif-hooks), trace generator, ocaml/driver.ml comparison, tools/check.py',
     'Layer P translator (sigdump --bodies, syn): bodies of 17 pointer functions re-translated from the current source on every run and proved equal to the hand-written Layer B definitions (coq/Gen/BodiesProps.v); trusted to parse and to render the recognised idioms, everything else becomes a faulting Unknown statement or a whitelisted named Opaque',
-    'modelled by hand, not verified: all of /repo/src (Layer P ties the pointer primitives only); assumed and only exercised: hashbrown RawTable contract, rustc/std semantics of MaybeUninit, ptr::read, drop order, size_of (a parameter of the model)',
+    'Layer P2 translator (sigdump --ops, syn): bodies of 33 methods of src/lib.rs (every public operation but retain and clear, and their private helpers) re-translated on every run into a small deep embedding and proved equal to the clauses of the pointer-level model stepB (coq/Gen/OpBodiesProps.v, 42 theorems); trusted to parse and to render a fixed set of idioms, everything else is a faulting Unknown node',
+    'modelled by hand, not verified: all of /repo/src (Layers P and P2 tie the pointer primitives and the operation bodies to the source by translation); assumed and only exercised: hashbrown RawTable contract, rustc/std semantics of MaybeUninit, ptr::read, drop order, size_of (a parameter of the model)',
 ]
 
 ALL_OPS = None
@@ -35,17 +36,20 @@ PROPS = {
         assumptions=['key and value sizes change only inside mutate (the harness types guarantee it)'],
     ),
     'C03': dict(
+        oplayer=['P2_lrucache_eject_to_target', 'P2_lrucache_set_max_size', 'P2_lrucache_remove_lru', 'P2_lrucache_remove_ptr', 'P2_lrucache_remove_metadata'],
         comps=['evict_order', 'keyset'],
         theorems=['C03_insert', 'C03_exact_fit', 'C03_mutate', 'C03_set_max', 'C03_only_when', 'C03_pointer_level'],
         assumptions=['eviction order is observed through the order in which the evicted keys are dropped'],
     ),
     'C04': dict(
+        oplayer=['P2_lrucache_remove$', 'P2_lrucache_remove_entry', 'P2_lrucache_remove_from_table', 'P2_lrucache_contains', 'P2_lrucache_peek$', 'P2_lrucache_peek_entry', 'P2_lrucache_get_from_table', 'P2_lrucache_remove_mru'],
         comps=[('res', LOOKUPS), 'keyset', 'mon_c04', 'api_map'], directed=['c04_alias_prefix'],
         theorems=['C04_nodup', 'C04_outputs', 'C04_insert_returns_old', 'C04_step', 'C04_monitor_sound'],
         assumptions=['hashbrown finds an entry iff present under any hash function when the same hash is presented as at insertion (its contract; exercised with 5 hashers incl. constant, and Borrow<KeyId> lookups)',
                      'after every step every key of the universe is looked up through contains/peek/peek_entry in borrowed and owned form and compared with the pointer walk (flag api_map)'],
     ),
     'C05': dict(
+        oplayer=['P2_lrucache_touch', 'P2_lrucache_get$', 'P2_lrucache_get_entry', 'P2_lrucache_get_lru', 'P2_lrucache_peek_lru', 'P2_lrucache_peek_mru', 'P2_lrucache_get_mut_from_table'],
         comps=['order', 'api_order', 'panic_order'], bodies=['touch_ptr', 'set_head', 'EntryPtr::', 'Entry::unhinge', 'lru_ptr', 'mru_ptr', 'move_to_table'],
         theorems=['C05_order', 'C05_observers', 'C05_peeks', 'C05_touch_pointer', 'C05_remove_pointer', 'C05_insert_pointer', 'C05_realloc_pointer', 'C05_touch_refines', 'C05_remove_refines', 'C05_lru_is_head', 'C05_pointer_level_iteration'],
         assumptions=['iteration forward and reversed, keys(), values(), peek_lru/peek_mru and Debug are cross-checked against the pointer walk of the hook after every step (flag api_order)'],
@@ -68,11 +72,13 @@ PROPS = {
         theorems=['C09_exact', 'C09_upper', 'C09_map', 'C09_set', 'C09_ref'],
         assumptions=['no Mutex/RwLock is poisoned (DESIGN.md 9.4)']),
     'C10': dict(
+        oplayer=['P2_lrucache_insert$', 'P2_lrucache_try_insert', 'P2_lrucache_prepare_insert'],
         comps=['res_class', 'atomic', 'keyset', 'evict_order'],
         ops=INS,
         theorems=['C10_insert', 'C10_try_insert'],
     ),
     'C11': dict(
+        oplayer=['P2_lrucache_mutate'],
         comps=['res', 'closure_calls', 'keyset', 'order', 'ents', 'sizes', 'cur', 'max', 'drops', 'evict_order'],
         ops=['mutate'],
         theorems=['C11_absent', 'C11_too_large', 'C11_ok'],
@@ -85,6 +91,7 @@ PROPS = {
         theorems=['C12_split', 'C12_fused', 'C12_iter', 'C12_drain', 'C12_into_iter', 'C12_cursor', 'C12_taking', 'C12_taking_items'],
     ),
     'C13': dict(
+        oplayer=['P2_lrucache_insert_unchecked', 'P2_lrucache_reallocate', 'P2_lrucache_try_reallocate', 'P2_lrucache_reserve', 'P2_lrucache_try_reserve', 'P2_lrucache_shrink_to', 'P2_lrucache_new_capacity', 'P2_lrucache_insert_untracked'],
         corr_only=['cap'], directed=['c13_shrink_raises'],
         comps=['cap', 'clone_cap', 'mon_c13', 'growth'] + [(c, CAPOPS) for c in ('res', 'keyset', 'order', 'ents', 'sizes', 'cur', 'max', 'drops')],
         theorems=['C13_transparent', 'C13_reserve', 'C13_try_reserve_fail', 'C13_shrink', 'C13_shrink_to_fit', 'C13_with_capacity_step', 'C13_auto_growth', 'C13_growth_bounded', 'C13_monitor_growth_insert', 'C13_monitor_growth_try_insert', 'C13_monitor_sound'],
